@@ -29,6 +29,7 @@ class GenCfg:
         self.lookaheads = 0.06
         self.skipto = 0.02
         self.assoc = 0.0          # left / right joins (sep<{e}+ , sep>{e}+)
+        self.includes = 0.0       # rule includes (>rule), to rules defined later only (acyclic)
         self.reps = 0.14
         self.consts = 0.03
         self.dots = 0.02
@@ -52,6 +53,8 @@ def gen_exp(rng: random.Random, cfg: GenCfg, depth: int, rules_fwd: list[str], r
             pats = (PATTERNS if cfg.left_context else PATTERNS[:7] + PATTERNS[13:]) + ([r'\s*b'] if cfg.ws_patterns else [])
             return ('pat', rng.choice(pats))
         callable_ = rules_fwd + (rules_back if consumed else [])
+        if rules_fwd and rng.random() < cfg.includes:
+            return ('include', rng.choice(rules_fwd))
         if r < 0.85 and callable_:
             return ('call', rng.choice(callable_))
         if r < 0.85 + cfg.consts:
@@ -164,7 +167,7 @@ def sample_sentence(rng: random.Random, g, e, depth=3) -> list[str]:
         return []
     if k == 'dot':
         return [rng.choice('ab1 ')]
-    if k == 'call':
+    if k in ('call', 'include'):
         if depth <= 0:
             return []
         return sample_sentence(rng, g, rules[e[1]], depth - 1)
